@@ -20,12 +20,14 @@
 EXTENDS Naturals, Sequences, FiniteSets, TLC
 
 Kinds == {"int", "intList", "tokens", "tokenLists", "model", "modelList", "modelUnion", "anyType", "wildcardList",
-          "attributes", "primUnion", "compound", "enum", "nillableInt", "requiredInt", "attrInt", "wildcardOne"}
+          "attributes", "primUnion", "compound", "enum", "nillableInt", "requiredInt", "attrInt", "wildcardOne", "qname"}
 
 Shapes == {"absent", "empty", "ws", "int", "str", "enumStr", "ints", "twice", "nil", "nilText", "nilBad", "leaf", "leafTwice",
            "unknownChild", "mixed", "xsiInt", "xsiUnknown", "xsiUnbound", "xsiLeaf", "attrs", "parentAttr", "parentAttrBad",
            "parentAttrs", "deep", "cdata", "comment", "otherNs", "compoundN", "sibling",
-           "known", "knownTwice", "knownThenX"}     \* content that binds to a class the context knows by its qualified name
+           "known", "knownTwice", "knownThenX",     \* content that binds to a class the context knows by its qualified name
+           "mixedTokens",                           \* a token list with one unconvertible token: <x>1 a 3</x>
+           "clarkBroken", "xsiClarkBroken", "clark"} \* names in {uri}local notation, whole and cut short (text and xsi:type)
 
 Positions == {"root", "nested", "repeated"}
 
@@ -49,13 +51,24 @@ Canonical(k, s) ==
     [] k = "compound"     -> s \in {"absent", "compoundN"}
     [] k = "enum"         -> s \in {"absent", "enumStr"}
     [] k = "attrInt"      -> s \in {"absent", "parentAttr"}
+    [] k = "qname"        -> s \in {"absent", "str", "enumStr"}
 
 \* a shape that adds, next to canonical content `int`, something NO content model of the universe knows:
 \* an element <zz> beside x (sibling).  Kinds that absorb anything (wildcards) are exempt.
 AbsorbsUnknown(k) == k \in {"wildcardList", "wildcardOne"}
 MustFailStrict(k, s) == s = "sibling" /\ ~AbsorbsUnknown(k)
 
-TableSane == /\ \A k \in Kinds : \E s \in Shapes : Canonical(k, s)
+\* C10: text the declared type has no lexical form for.  It is kept AS GIVEN (the raw text, not a piece or a
+\* transformation of it) with a ConverterWarning, or the parse fails with ParserError when conversion warnings fail.
+Unconvertible(k, s) ==
+  CASE k \in {"int", "nillableInt", "requiredInt", "intList"} -> s \in {"str", "enumStr", "ints"}
+    [] k \in {"tokens", "tokenLists"}                          -> s \in {"str", "enumStr", "mixedTokens"}
+    [] k = "enum"                                               -> s \in {"str", "int", "ints"}
+    [] k = "attrInt"                                            -> s \in {"parentAttrBad"}
+    [] OTHER                                                    -> FALSE
+
+TableSane == /\ \A k \in Kinds, s \in Shapes : ~(Canonical(k, s) /\ Unconvertible(k, s))
+             /\ /\ \A k \in Kinds : \E s \in Shapes : Canonical(k, s)
              /\ ~Canonical("requiredInt", "absent")
              /\ \A k \in Kinds \ {"nillableInt", "requiredInt"} : Canonical(k, "absent")
              /\ \A k \in Kinds, s \in Shapes : ~(Canonical(k, s) /\ MustFailStrict(k, s))
